@@ -776,6 +776,8 @@ func runC10(c *Ctx) {
 	c.rule("merge-precedence", "Update copies each schema field of the argument under an adequate non-emptiness test of the argument's field (see C09)")
 	c.mergeRule("sbom.(*Node).Update", false, nodeIdentity)
 	lookupCriterionRule(c, "sbom.(*NodeList).GetEdgeByType")
+	lookupReturnsElement(c, "sbom.(*NodeList).GetEdgeByType")
+	madeWithLengthThenAppended(c, "made-with-length-then-appended", pkgFilter(c.reachDecls("made-with-length-then-appended", "sbom.(*NodeList).Intersect"), "sbom."))
 	c.floor("intersection-membership", 2, "node append and root append")
 	const RL = "loop-totality"
 	c.rule(RL, loopRuleText)
